@@ -127,7 +127,7 @@ def _split_groups(col, c, sep, lsb0):
     groups, pos = [], 0
     while True:
         field = col[pos:pos + c]
-        g = field.rstrip(" ")
+        g = field.strip(" ")                                # alignment inside the field is not part of the property
         if g == "" or " " in g:
             return None
         groups.append(g)
